@@ -129,6 +129,10 @@ func (fx *FX) evalExpr(env *Env, e Expr) Val {
 			return VInt{fx.rngPos}
 		case "rngpos0":
 			return VInt{fx.rngPos0}
+		case "rangecount": // number of keys the enclosing map-range loop has visited (ghost)
+			if env.rangeCount.S != "" {
+				return VInt{env.rangeCount}
+			}
 		}
 		if c, ok := fx.u.specConst(x.Name); ok {
 			return c
@@ -550,6 +554,12 @@ func (fx *FX) evalCall(env *Env, c ECall) Val {
 			return VSeq{app(SSeq, "jsstring", ref)}
 		}
 		return VBool{app(SBool, "jsbool", ref)}
+	case "rangecount": // number of keys the enclosing map-range loop has visited (ghost)
+		if env.rangeCount.S != "" {
+			return VInt{env.rangeCount}
+		}
+		fx.fail("contract: rangecount outside a map-range loop over string keys")
+		return VInt{num(0)}
 	case "rangeseen": // the enclosing map-range loop has already visited key k (ghost)
 		if env.rangeSeen.S != "" {
 			return VBool{sel(env.rangeSeen, seq(0))}
